@@ -260,6 +260,14 @@ class NakPdu(AbstractFileDirectiveBase):
             struct_arg_tuple = ("!I", 4)
         else:
             struct_arg_tuple = ("!Q", 8)
+        end_of_params = nak_pdu.packet_len
+        if nak_pdu.pdu_file_directive.pdu_conf.crc_flag == CrcFlag.WITH_CRC:
+            end_of_params -= 2
+        if current_idx + 2 * struct_arg_tuple[1] > end_of_params:
+            raise ValueError(
+                f"PDU data field too short for the NAK scope fields, "
+                f"expected at least {current_idx + 2 * struct_arg_tuple[1]} bytes"
+            )
         nak_pdu.start_of_scope = struct.unpack(
             struct_arg_tuple[0],
             data[current_idx : current_idx + struct_arg_tuple[1]],
